@@ -1,4 +1,784 @@
-//! C16 — stub, replaced when the property's harness lands.
-use crate::util::{Em, Rng};
+//! C16 — scalers and whiteners: `LinearScaler` (standard / min-max / max-abs), `NormScaler`,
+//! `Whitener` (PCA / ZCA / Cholesky) on arrays and datasets.
+//!
+//! Correspondence ops (f64, bit patterns in the request): `std`, `minmax`, `maxabs`, `norm`,
+//! `whiten` (the whitening matrix found by the real SVD / Cholesky travels in the request and is
+//! validated by its contract here), `ds` (metadata pass-through).  The same generic bodies run on
+//! f32 as oracle-only `#…32` cases.  The oracle recomputes the postconditions of the statement from
+//! first principles (two-pass statistics in f64) on the transformed *training* data, and row-wise
+//! action on the second matrix (selection / reordering / one row at a time, bit-exact).
+use crate::util::*;
+use linfa::dataset::DatasetBase;
+use linfa::traits::{Fit, Transformer};
+use linfa::Float;
+use linfa_preprocessing::linear_scaling::{LinearScaler, LinearScalerParams, ScalingMethod};
+use linfa_preprocessing::norm_scaling::NormScaler;
+use linfa_preprocessing::whitening::{FittedWhitener, Whitener};
+use linfa_preprocessing::PreprocessingError;
+use ndarray::{Array1, Array2, Axis};
+use std::panic::{catch_unwind, AssertUnwindSafe};
 
-pub fn run(_em: &mut Em, _rng: &mut Rng) {}
+type Mat = Vec<Vec<f64>>;
+
+fn to_arr<F: Float>(m: &Mat, p: usize) -> Array2<F> {
+    Array2::from_shape_fn((m.len(), p), |(i, j)| F::cast(m[i][j]))
+}
+fn to_mat<F: Float>(a: &Array2<F>) -> Mat {
+    a.rows().into_iter().map(|r| r.iter().map(|x| x.to_f64().unwrap()).collect()).collect()
+}
+fn show_mat(m: &Mat) -> String {
+    list2(m.iter().map(|r| r.iter()), |x| hex64(*x))
+}
+fn show_mat_c(m: &Mat, approx: bool) -> String {
+    list2(m.iter().map(|r| r.iter()), |x| if approx { format!("~{}", hex64c(*x)) } else { hex64c(*x) })
+}
+fn err_name(e: &PreprocessingError) -> &'static str {
+    match e {
+        PreprocessingError::NotEnoughSamples => "NotEnoughSamples",
+        PreprocessingError::FlippedMinMaxRange => "FlippedMinMaxRange",
+        PreprocessingError::LinalgError(_) => "Linalg",
+        _ => "Other",
+    }
+}
+fn column(m: &Mat, j: usize) -> Vec<f64> {
+    m.iter().map(|r| r[j]).collect()
+}
+/// two-pass statistics in f64: (mean, population sd, min, max, max |x|, all equal)
+fn stats(c: &[f64]) -> (f64, f64, f64, f64, f64, bool) {
+    let n = c.len() as f64;
+    let m = c.iter().sum::<f64>() / n;
+    let v = c.iter().map(|x| (x - m) * (x - m)).sum::<f64>() / n;
+    let mn = c.iter().cloned().fold(f64::INFINITY, f64::min);
+    let mx = c.iter().cloned().fold(f64::NEG_INFINITY, f64::max);
+    let ma = c.iter().fold(0.0f64, |a, x| a.max(x.abs()));
+    (m, v.sqrt(), mn, mx, ma, c.iter().all(|x| *x == c[0]))
+}
+fn same_bits(a: &[f64], b: &[f64]) -> bool {
+    a.len() == b.len() && a.iter().zip(b).all(|(x, y)| x.to_bits() == y.to_bits() || (x.is_nan() && y.is_nan()))
+}
+
+// ---------------------------------------------------------------- generators
+
+#[derive(Clone, Copy, PartialEq)]
+enum Stream {
+    Lattice,
+    Generic,
+}
+
+/// one column of `n` values. `eps` is the machine epsilon of the carrier the matrix is meant for.
+fn gen_column(rng: &mut Rng, n: usize, stream: Stream, eps: f64, em: &mut Em) -> Vec<f64> {
+    let kind = rng.below(if stream == Stream::Lattice { 7 } else { 11 });
+    match kind {
+        0 => {
+            em.count("col:constant");
+            let c = *rng.pick(&[0.0, 0.0, 1.0, -3.0, 0.25, 1024.0, 7.5]);
+            vec![c; n]
+        }
+        1 => {
+            em.count("col:two_valued");
+            let a = rng.range(-8, 8) as f64 / 4.0;
+            let b = rng.range(-8, 8) as f64 / 4.0;
+            (0..n).map(|_| if rng.coin() { a } else { b }).collect()
+        }
+        2 => {
+            em.count("col:int_offset");
+            let off = *rng.pick(&[0.0, 100.0, -1024.0, 4096.0]);
+            (0..n).map(|_| off + rng.range(-8, 8) as f64).collect()
+        }
+        3..=6 => {
+            em.count("col:quarters");
+            (0..n).map(|_| rng.range(-32, 32) as f64 / 4.0).collect()
+        }
+        7 => {
+            em.count("col:sub_eps");
+            // non-constant, spread far below the machine epsilon of the carrier
+            let unit = eps / 16.0;
+            (0..n).map(|_| rng.range(-3, 3) as f64 * unit).collect()
+        }
+        8 => {
+            em.count("col:constant_generic");
+            let c = *rng.pick(&[0.1, -1e6 - 0.3, 3.3e-6, 1e6 + 0.1]);
+            vec![c; n]
+        }
+        _ => {
+            em.count("col:generic");
+            let off = *rng.pick(&[0.0, 0.0, 1e6, -1e6, 1e3]);
+            let sc = *rng.pick(&[1e-6, 1.0, 1.0, 1e6, 1e-3]);
+            (0..n).map(|_| if rng.chance(1, 40) { -0.0 } else { off + sc * (2.0 * rng.unit() - 1.0) }).collect()
+        }
+    }
+}
+
+/// columns whose sd / range / max-abs sit within a factor 4 of the guard's epsilon would make the
+/// constant-feature decision hang on rounding: they are replaced (counted), never compared
+fn near_eps(c: &[f64], eps: f64) -> bool {
+    if c.is_empty() {
+        return false;
+    }
+    let (_, sd, mn, mx, ma, _) = stats(c);
+    let near = |v: f64| v > eps / 4.0 && v < eps * 4.0;
+    near(sd) || near(mx - mn) || near(ma)
+}
+
+fn gen_matrix(rng: &mut Rng, n: usize, p: usize, stream: Stream, eps: f64, em: &mut Em) -> Mat {
+    let mut cols: Vec<Vec<f64>> = vec![];
+    for _ in 0..p {
+        let mut c = gen_column(rng, n, stream, eps, em);
+        if near_eps(&c, eps) {
+            em.count("col:near_eps_replaced");
+            c = (0..n).map(|_| rng.range(-32, 32) as f64 / 4.0).collect();
+        }
+        cols.push(c);
+    }
+    let mut m: Mat = (0..n).map(|i| (0..p).map(|j| cols[j][i]).collect()).collect();
+    if n >= 2 && rng.chance(1, 4) {
+        em.count("row:all_zero");
+        let i = rng.below(n);
+        m[i] = vec![0.0; p];
+    }
+    if n >= 2 && rng.chance(1, 5) {
+        em.count("row:duplicate");
+        let (i, j) = (rng.below(n), rng.below(n));
+        m[i] = m[j].clone();
+    }
+    // the zero / duplicate row may have pushed a column next to the guard
+    for j in 0..p {
+        if near_eps(&column(&m, j), eps) {
+            em.count("col:near_eps_replaced");
+            for r in m.iter_mut() {
+                r[j] = rng.range(-32, 32) as f64 / 4.0;
+            }
+        }
+    }
+    m
+}
+
+fn gen_shape(rng: &mut Rng, big: bool) -> (usize, usize) {
+    let n = if rng.chance(1, 25) {
+        0
+    } else if big && rng.chance(1, 6) {
+        rng.range(9, 40) as usize
+    } else {
+        rng.range(1, 9) as usize
+    };
+    let p = if rng.chance(1, 40) { 0 } else { rng.range(1, 5) as usize };
+    (n, p)
+}
+
+/// row selections for the row-wise oracle: a permutation with repetitions
+fn gen_sel(rng: &mut Rng, n: usize) -> Vec<usize> {
+    if n == 0 {
+        return vec![];
+    }
+    let k = rng.below(n + 2);
+    (0..k).map(|_| rng.below(n)).collect()
+}
+
+// ---------------------------------------------------------------- linear scalers
+
+#[derive(Clone, Copy, PartialEq, Debug)]
+enum Lin {
+    Std(bool, bool),
+    MinMax(f64, f64),
+    MaxAbs,
+}
+impl Lin {
+    fn name(&self) -> &'static str {
+        match self {
+            Lin::Std(..) => "std",
+            Lin::MinMax(..) => "minmax",
+            Lin::MaxAbs => "maxabs",
+        }
+    }
+    fn params<F: Float>(&self) -> LinearScalerParams<F> {
+        match *self {
+            Lin::Std(true, true) => LinearScaler::standard(),
+            Lin::Std(false, true) => LinearScaler::standard_no_mean(),
+            Lin::Std(true, false) => LinearScaler::standard_no_std(),
+            Lin::Std(a, b) => LinearScalerParams::new(ScalingMethod::Standard(a, b)),
+            Lin::MinMax(lo, hi) if lo == 0.0 && hi == 1.0 => LinearScaler::min_max(),
+            Lin::MinMax(lo, hi) => LinearScaler::min_max_range(F::cast(lo), F::cast(hi)),
+            Lin::MaxAbs => LinearScaler::max_abs(),
+        }
+    }
+}
+
+fn spread_class(all_equal_or_zero: bool, v: f64, eps: f64) -> &'static str {
+    if all_equal_or_zero {
+        "constant"
+    } else if v <= eps {
+        "sub_eps"
+    } else {
+        "regular"
+    }
+}
+
+/// the statement's postconditions on the transformed training data (`yf` = transform(fit data))
+fn oracle_lin(ctx: &mut Ctx, tag: &str, lin: Lin, fit: &Mat, p: usize, yf: &Mat, e: f64) {
+    let n = fit.len();
+    if n == 0 {
+        return;
+    }
+    for j in 0..p {
+        let c = column(fit, j);
+        let y = column(yf, j);
+        let (m, sd, mn, mx, ma, alleq) = stats(&c);
+        let (ym, ysd, ymn, ymx, yma, _) = stats(&y);
+        let nn = n as f64;
+        match lin {
+            Lin::Std(wm, ws) => {
+                let cls = spread_class(alleq, sd, e);
+                let class = format!("{}:wm={}:ws={}:column={}", tag, wm as u8, ws as u8, cls);
+                if alleq {
+                    // constant columns are only centred
+                    let want = if wm { 0.0 } else { c[0] };
+                    let tol = 4.0 * (nn + 2.0) * e * c[0].abs();
+                    ctx.require(y.iter().all(|v| (v - want).abs() <= tol), "constant_only_centred", &class, || format!("column {} constant {:e}: output {:?}, want {:e} (tol {:e})", j, c[0], y, want, tol));
+                    continue;
+                }
+                let s_exp = if ws && cls == "regular" { 1.0 / sd } else { 1.0 };
+                if wm {
+                    let tol = 16.0 * e * (ma + m.abs()) * s_exp + f64::MIN_POSITIVE;
+                    ctx.require(ym.abs() <= tol, "standard_zero_mean", &class, || format!("column {}: mean of output {:e} (tol {:e}); input {:?}", j, ym, tol, c));
+                } else {
+                    let tol = 16.0 * e * (ma + m.abs()) * (1.0 + s_exp) + f64::MIN_POSITIVE;
+                    ctx.require((ym - m).abs() <= tol, "no_mean_keeps_mean", &class, || format!("column {}: mean of output {:e}, of input {:e} (tol {:e})", j, ym, m, tol));
+                }
+                if ws {
+                    // conditioning of x - mean, plus (no-mean variant) the rounding of `+ offset`
+                    let tol = 64.0 * e * (1.0 + (ma + m.abs()) / sd) + if wm { 0.0 } else { 64.0 * e * m.abs() };
+                    if tol < 0.25 {
+                        ctx.require((ysd * ysd - 1.0).abs() <= tol, "standard_unit_var", &class, || format!("column {}: variance of output {:e} (tol {:e}); input {:?}", j, ysd * ysd, tol, c));
+                    }
+                } else {
+                    let tol = 64.0 * e * (sd * sd + (ma + m.abs()) * sd);
+                    ctx.require((ysd * ysd - sd * sd).abs() <= tol, "no_std_keeps_spread", &class, || format!("column {}: variance of output {:e}, of input {:e} (tol {:e})", j, ysd * ysd, sd * sd, tol));
+                }
+            }
+            Lin::MinMax(lo, hi) => {
+                let cls = spread_class(alleq, mx - mn, e);
+                let class = format!("{}:column={}", tag, cls);
+                if alleq {
+                    continue;
+                }
+                let tol = 8.0 * e * (lo.abs() + hi.abs() + (hi - lo));
+                ctx.require((ymn - lo).abs() <= tol && (ymx - hi).abs() <= tol, "minmax_range_attained", &class, || {
+                    format!("column {}: output spans [{:e}, {:e}], requested [{:e}, {:e}] (tol {:e}); input {:?}", j, ymn, ymx, lo, hi, tol, c)
+                });
+            }
+            Lin::MaxAbs => {
+                let cls = spread_class(ma == 0.0, ma, e);
+                let class = format!("{}:column={}", tag, cls);
+                if ma == 0.0 {
+                    continue;
+                }
+                ctx.require((yma - 1.0).abs() <= 4.0 * e, "maxabs_one", &class, || format!("column {}: max |output| {:e}; input {:?}", j, yma, c));
+            }
+        }
+    }
+}
+
+/// transform(x[sel]) = transform(x)[sel], and each row alone maps to the same row (bit-exact)
+fn oracle_rowwise<F: Float>(ctx: &mut Ctx, class: &str, x: &Array2<F>, y: &Array2<F>, sel: &[usize], exact: bool, tr: &dyn Fn(Array2<F>) -> Array2<F>) {
+    if x.nrows() == 0 || x.ncols() == 0 {
+        return;
+    }
+    let cmp = |a: &[f64], b: &[f64]| -> bool {
+        if exact {
+            same_bits(a, b)
+        } else {
+            a.len() == b.len() && a.iter().zip(b).all(|(u, v)| (u - v).abs() <= 1e-9 * (1.0 + u.abs().max(v.abs())) || (u.is_nan() && v.is_nan()) || u == v)
+        }
+    };
+    let ym = to_mat(y);
+    if !sel.is_empty() {
+        let xs = x.select(Axis(0), sel);
+        let ys = to_mat(&tr(xs));
+        let ok = ys.len() == sel.len() && sel.iter().enumerate().all(|(k, &i)| cmp(&ys[k], &ym[i]));
+        ctx.require(ok, "rowwise_selection", class, || format!("transform(x[sel]) differs from transform(x)[sel], sel {:?}", sel));
+    }
+    for i in 0..x.nrows().min(4) {
+        let one = x.select(Axis(0), &[i]);
+        let yo = to_mat(&tr(one));
+        ctx.require(yo.len() == 1 && cmp(&yo[0], &ym[i]), "rowwise_single", class, || format!("row {} transformed alone differs from the row of the batch result", i));
+    }
+}
+
+struct LinOut {
+    offsets: Vec<f64>,
+    scales: Vec<f64>,
+    y: Mat,
+}
+
+/// fit on `fit`, check the postconditions on transform(fit), transform `x` (last: may panic)
+fn run_lin<F: Float>(ctx: &mut Ctx, tag: &str, lin: Lin, fit: &Mat, pf: usize, x: &Mat, px: usize, sel: &[usize]) -> Result<LinOut, &'static str> {
+    let e = F::epsilon().to_f64().unwrap();
+    let fa: Array2<F> = to_arr(fit, pf);
+    let ds = DatasetBase::from(fa.clone());
+    let res = lin.params::<F>().fit(&ds);
+    if fit.is_empty() {
+        ctx.require(matches!(res, Err(PreprocessingError::NotEnoughSamples)), "empty_rejected", tag, || "fit on a dataset without samples did not return NotEnoughSamples".to_string());
+    }
+    let sc = match res {
+        Err(e) => return Err(err_name(&e)),
+        Ok(sc) => sc,
+    };
+    let yf = sc.transform(fa.clone());
+    oracle_lin(ctx, tag, lin, &to_mat(&fa), pf, &to_mat(&yf), e);
+    let offsets = sc.offsets().iter().map(|v| v.to_f64().unwrap()).collect();
+    let scales = sc.scales().iter().map(|v| v.to_f64().unwrap()).collect();
+    let xa: Array2<F> = to_arr(x, px);
+    let y = sc.transform(xa.clone());
+    oracle_rowwise(ctx, tag, &xa, &y, sel, true, &|a| sc.transform(a));
+    Ok(LinOut { offsets, scales, y: to_mat(&y) })
+}
+
+fn op_lin(em: &mut Em, rng: &mut Rng, lin: Lin, stream: Stream, f32_too: bool) {
+    let big = em.thorough();
+    let (nf, p) = gen_shape(rng, big);
+    // ndarray sums a single contiguous column with an 8-way unrolled kernel: with n >= 8 its
+    // rounding differs from the sequential model unless the sums are exact (lattice values)
+    let stream = if p == 1 && nf >= 8 && matches!(lin, Lin::Std(..)) { Stream::Lattice } else { stream };
+    let fit = gen_matrix(rng, nf, p, stream, f64::EPSILON, em);
+    let px = if rng.chance(1, 25) { p + 1 } else { p };
+    let nx = if rng.chance(1, 12) { 0 } else { rng.range(1, 6) as usize };
+    let x = if px == p && rng.chance(1, 4) { fit.clone() } else { gen_matrix(rng, nx, px, stream, f64::EPSILON, em) };
+    let sel = gen_sel(rng, x.len());
+    em.count(if stream == Stream::Lattice { "stream:lattice" } else { "stream:generic" });
+    let head = match lin {
+        Lin::Std(wm, ws) => format!("std wm={} ws={}", wm as u8, ws as u8),
+        Lin::MinMax(lo, hi) => format!("minmax lo={} hi={}", hex64(lo), hex64(hi)),
+        Lin::MaxAbs => "maxabs".to_string(),
+    };
+    let op = format!("{} pf={} fit={} px={} x={}", head, p, show_mat(&fit), px, show_mat(&x));
+    let approx = matches!(lin, Lin::Std(..));
+    let tag = lin.name().to_string();
+    let flipped = matches!(lin, Lin::MinMax(lo, hi) if lo > hi);
+    let promised = nf > 0 && (px == p || x.is_empty() || px == 0) && !flipped;
+    let body = |ctx: &mut Ctx| match run_lin::<f64>(ctx, &tag, lin, &fit, p, &x, px, &sel) {
+        Err(name) => format!("err {}", name),
+        Ok(o) => format!(
+            "ok off={} sc={} y={}",
+            list(o.offsets.iter(), |v| hex64c(*v)),
+            list(o.scales.iter(), |v| if approx { format!("~{}", hex64c(*v)) } else { hex64c(*v) }),
+            show_mat_c(&o.y, approx)
+        ),
+    };
+    if promised {
+        em.case_valid(op, &tag, body);
+    } else {
+        em.case(op, body);
+    }
+    if f32_too {
+        // same shapes on f32 (values regenerated for the f32 epsilon), oracle only
+        let fit32 = gen_matrix(rng, nf, p, stream, f32::EPSILON as f64, em);
+        let x32 = gen_matrix(rng, nx, p, stream, f32::EPSILON as f64, em);
+        let fit32: Mat = fit32.iter().map(|r| r.iter().map(|v| *v as f32 as f64).collect()).collect();
+        // rounding to f32 can move a column next to the f32 guard
+        if (0..p).any(|j| near_eps(&column(&fit32, j), f32::EPSILON as f64)) {
+            em.count("f32:near_eps_skipped");
+            return;
+        }
+        let sel32 = gen_sel(rng, x32.len());
+        let tag32 = format!("{}32", lin.name());
+        let op32 = format!("#{}32 {} nf={} p={} fit={}", lin.name(), head, nf, p, show_mat(&fit32));
+        let body32 = |ctx: &mut Ctx| match run_lin::<f32>(ctx, &tag32, lin, &fit32, p, &x32, p, &sel32) {
+            Err(name) => format!("err {}", name),
+            Ok(_) => "ok".to_string(),
+        };
+        if nf > 0 && !flipped {
+            em.case_valid(op32, &tag32, body32);
+        } else {
+            em.case(op32, body32);
+        }
+    }
+}
+
+fn gen_range(rng: &mut Rng) -> (f64, f64) {
+    match rng.below(8) {
+        0 | 1 => (0.0, 1.0),
+        2 => (-1.0, 1.0),
+        3 => (5.0, 10.0),
+        4 => (2.5, 2.5),
+        5 => (1.0, 0.0), // flipped: error
+        6 => (-1e3, 1e-3),
+        _ => {
+            let a = rng.range(-16, 16) as f64 / 4.0;
+            let b = a + rng.range(0, 32) as f64 / 8.0;
+            (a, b)
+        }
+    }
+}
+
+// ---------------------------------------------------------------- norm scaler
+
+fn norm_scaler(kind: &str) -> NormScaler {
+    match kind {
+        "l1" => NormScaler::l1(),
+        "l2" => NormScaler::l2(),
+        _ => NormScaler::max(),
+    }
+}
+
+fn run_norm<F: Float>(ctx: &mut Ctx, tag: &str, kind: &str, x: &Mat, p: usize, sel: &[usize]) -> Mat {
+    let e = F::epsilon().to_f64().unwrap();
+    let xa: Array2<F> = to_arr(x, p);
+    let sc = norm_scaler(kind);
+    let y: Array2<F> = sc.transform(xa.clone());
+    let xm = to_mat(&xa);
+    let ym = to_mat(&y);
+    for (i, (r, o)) in xm.iter().zip(ym.iter()).enumerate() {
+        let zero = r.iter().all(|v| *v == 0.0);
+        let class = format!("{}:kind={}:row={}", tag, kind, if zero { "zero" } else { "nonzero" });
+        ctx.require(o.iter().all(|v| v.is_finite()), "norm_finite", &class, || format!("row {} = {:?} is mapped to {:?}", i, r, o));
+        if !zero {
+            let nrm = match kind {
+                "l1" => o.iter().map(|v| v.abs()).sum::<f64>(),
+                "l2" => o.iter().map(|v| v * v).sum::<f64>().sqrt(),
+                _ => o.iter().fold(0.0f64, |a, v| a.max(v.abs())),
+            };
+            let tol = 4.0 * (p as f64 + 2.0) * e;
+            ctx.require((nrm - 1.0).abs() <= tol, "norm_unit", &class, || format!("row {} = {:?}: output norm {:e} (tol {:e})", i, r, nrm, tol));
+        }
+    }
+    oracle_rowwise(ctx, &format!("{}:kind={}", tag, kind), &xa, &y, sel, true, &|a| sc.transform(a));
+    ym
+}
+
+fn op_norm(em: &mut Em, rng: &mut Rng, stream: Stream, f32_too: bool) {
+    let kind = *rng.pick(&["l1", "l2", "max"]);
+    let (n, p) = gen_shape(rng, em.thorough());
+    let x = gen_matrix(rng, n, p, stream, f64::EPSILON, em);
+    let sel = gen_sel(rng, n);
+    em.count(&format!("norm:{}", kind));
+    let op = format!("norm kind={} x={}", kind, show_mat(&x));
+    em.case_valid(op, &format!("norm:kind={}", kind), |ctx| {
+        let y = run_norm::<f64>(ctx, "norm", kind, &x, p, &sel);
+        format!("ok y={}", show_mat_c(&y, false))
+    });
+    if f32_too {
+        let x32 = gen_matrix(rng, n, p, stream, f32::EPSILON as f64, em);
+        let sel32 = gen_sel(rng, n);
+        let op32 = format!("#norm32 kind={} x={}", kind, show_mat(&x32));
+        em.case_valid(op32, &format!("norm32:kind={}", kind), |ctx| {
+            run_norm::<f32>(ctx, "norm32", kind, &x32, p, &sel32);
+            "ok".to_string()
+        });
+    }
+}
+
+// ---------------------------------------------------------------- whitening
+
+fn whitener(method: &str) -> Whitener {
+    match method {
+        "pca" => Whitener::pca(),
+        "zca" => Whitener::zca(),
+        _ => Whitener::cholesky(),
+    }
+}
+
+/// eigenvalues of a small symmetric matrix (cyclic Jacobi), for the rank / conditioning class
+fn sym_eigvals(a: &Mat) -> Vec<f64> {
+    let p = a.len();
+    let mut a = a.clone();
+    for _ in 0..60 {
+        let mut off = 0.0;
+        for i in 0..p {
+            for j in 0..p {
+                if i != j {
+                    off += a[i][j] * a[i][j];
+                }
+            }
+        }
+        if off == 0.0 {
+            break;
+        }
+        for i in 0..p {
+            for j in (i + 1)..p {
+                if a[i][j] == 0.0 {
+                    continue;
+                }
+                let theta = (a[j][j] - a[i][i]) / (2.0 * a[i][j]);
+                let t = theta.signum() / (theta.abs() + (theta * theta + 1.0).sqrt());
+                let t = if theta == 0.0 { 1.0 } else { t };
+                let c = 1.0 / (t * t + 1.0).sqrt();
+                let s = t * c;
+                for k in 0..p {
+                    let (aki, akj) = (a[k][i], a[k][j]);
+                    a[k][i] = c * aki - s * akj;
+                    a[k][j] = s * aki + c * akj;
+                }
+                for k in 0..p {
+                    let (aik, ajk) = (a[i][k], a[j][k]);
+                    a[i][k] = c * aik - s * ajk;
+                    a[j][k] = s * aik + c * ajk;
+                }
+            }
+        }
+    }
+    (0..p).map(|i| a[i][i]).collect()
+}
+
+/// sample covariance (divisor n-1), two-pass in f64
+fn cov(m: &Mat, p: usize) -> Mat {
+    let n = m.len() as f64;
+    let means: Vec<f64> = (0..p).map(|j| column(m, j).iter().sum::<f64>() / n).collect();
+    (0..p).map(|a| (0..p).map(|b| m.iter().map(|r| (r[a] - means[a]) * (r[b] - means[b])).sum::<f64>() / (n - 1.0)).collect()).collect()
+}
+
+fn gen_whiten_matrix(rng: &mut Rng, n: usize, p: usize, stream: Stream, em: &mut Em) -> Mat {
+    let (off, sc) = if stream == Stream::Lattice { (0.0, 1.0) } else { (*rng.pick(&[0.0, 10.0, 1e3]), *rng.pick(&[1e-3, 1.0, 1.0, 30.0, 1e3])) };
+    let mut m: Mat = (0..n)
+        .map(|_| (0..p).map(|_| if stream == Stream::Lattice { rng.range(-16, 16) as f64 / 2.0 } else { off + sc * (2.0 * rng.unit() - 1.0) }).collect())
+        .collect();
+    if n >= 1 && p >= 1 && rng.chance(1, 8) {
+        em.count("whiten:constant_column");
+        let j = rng.below(p);
+        let c = m[0][j];
+        for r in m.iter_mut() {
+            r[j] = c;
+        }
+    }
+    if n >= 2 && rng.chance(1, 10) {
+        em.count("whiten:zero_row");
+        let i = rng.below(n);
+        m[i] = vec![0.0; p];
+    }
+    m
+}
+
+fn fit_whitener(method: &str, fit: &Mat, p: usize) -> Result<Result<FittedWhitener<f64>, PreprocessingError>, ()> {
+    let fa: Array2<f64> = to_arr(fit, p);
+    let ds = DatasetBase::from(fa);
+    catch_unwind(AssertUnwindSafe(|| whitener(method).fit(&ds))).map_err(|_| ())
+}
+
+fn op_whiten(em: &mut Em, rng: &mut Rng, stream: Stream) {
+    let mut method = *rng.pick(&["pca", "zca", "chol"]);
+    let p = rng.range(1, 4) as usize;
+    let n = match rng.below(12) {
+        0 => 0,
+        1 => rng.range(1, p as i64) as usize, // n <= p: rank deficient
+        _ => p + 1 + rng.below(if em.thorough() { 30 } else { 8 }),
+    };
+    if n == 1 && method != "pca" {
+        // outside the property (fewer than two rows) and not runnable: the covariance is 0/0 = NaN and
+        // linfa-linalg's SVD does not terminate on a NaN matrix (ZCA; Cholesky goes through invc)
+        em.count("whiten:n1_zca_chol_not_run");
+        method = "pca";
+    }
+    // single contiguous column with n >= 8: see op_lin
+    let stream = if p == 1 && n >= 8 { Stream::Lattice } else { stream };
+    let fit = gen_whiten_matrix(rng, n, p, stream, em);
+    let nx = if rng.chance(1, 10) { 0 } else { rng.range(1, 5) as usize };
+    let x = if rng.chance(1, 4) { fit.clone() } else { gen_whiten_matrix(rng, nx, p, stream, em) };
+    let sel = gen_sel(rng, x.len());
+    em.count(&format!("whiten:{}", method));
+    // conditioning class from the data
+    let (full_rank, cond) = if n >= 2 && p >= 1 {
+        let ev = sym_eigvals(&cov(&fit, p));
+        let (lo, hi) = (ev.iter().cloned().fold(f64::INFINITY, f64::min), ev.iter().cloned().fold(0.0f64, f64::max));
+        // rank relative to the magnitude of the data: a constant column at 1e3 leaves a rounding residue in
+        // the two-pass covariance that must not count as variance
+        let ma = fit.iter().flatten().fold(0.0f64, |a, v| a.max(v.abs()));
+        let cond = if lo > 0.0 { hi / lo + 1e7 * ma / lo.sqrt() * f64::EPSILON } else { f64::INFINITY };
+        (n > p && lo > 1e-9 * hi && lo > 1e-20 * ma * ma && lo > 0.0, cond)
+    } else {
+        (false, f64::INFINITY)
+    };
+    em.count(if full_rank { "whiten:full_rank" } else { "whiten:rank_deficient" });
+    // the external factorisation's result goes into the request
+    let pre = fit_whitener(method, &fit, p);
+    let w: Option<Mat> = match &pre {
+        Ok(Ok(fw)) => Some(to_mat(&fw.transformation_matrix().to_owned())),
+        _ => None,
+    };
+    let w_ok = w.as_ref().map_or(false, |w| w.iter().flatten().all(|v| v.is_finite()) && w.iter().all(|r| r.len() == p));
+    let class = format!("whiten:method={}:{}", method, if full_rank { "full_rank" } else { "rank_deficient" });
+    if n > 0 && !w_ok {
+        // factorisation failed / non-finite / reduced shape: outside the model; only the promise on
+        // full-rank data is checked
+        em.count("whiten:no_usable_matrix");
+        let op = format!("#whiten_nomatrix method={} pf={} fit={}", method, p, show_mat(&fit));
+        em.case(op, |ctx| {
+            ctx.require(!full_rank, "whiten_identity_cov", &class, || format!("no finite p x p whitening matrix on full-rank data (cond {:e})", cond));
+            "-".to_string()
+        });
+        return;
+    }
+    let wm = w.unwrap_or_default();
+    let op = format!("whiten method={} pf={} fit={} x={} W={}", method, p, show_mat(&fit), show_mat(&x), show_mat(&wm));
+    let body = |ctx: &mut Ctx| {
+        let res = fit_whitener(method, &fit, p).unwrap_or_else(|_| panic!("fit panicked"));
+        if fit.is_empty() {
+            ctx.require(matches!(res, Err(PreprocessingError::NotEnoughSamples)), "empty_rejected", "whiten", || "fit on a dataset without samples did not return NotEnoughSamples".to_string());
+        }
+        let fw = match res {
+            Err(e) => return format!("err {}", err_name(&e)),
+            Ok(fw) => fw,
+        };
+        ctx.require(to_mat(&fw.transformation_matrix().to_owned()).iter().flatten().zip(wm.iter().flatten()).all(|(a, b)| a.to_bits() == b.to_bits()), "deterministic_fit", &class, || "two fits on the same data gave different matrices".to_string());
+        let fa: Array2<f64> = to_arr(&fit, p);
+        if full_rank {
+            let yf = to_mat(&fw.transform(fa.clone()));
+            let c = cov(&yf, p);
+            let tol = 1e-9 * cond.max(1.0);
+            let mut worst = 0.0f64;
+            for a in 0..p {
+                for b in 0..p {
+                    worst = worst.max((c[a][b] - if a == b { 1.0 } else { 0.0 }).abs());
+                }
+            }
+            ctx.require(worst <= tol, "whiten_identity_cov", &class, || format!("covariance of the whitened training data deviates from I by {:e} (tol {:e}, cond {:e})", worst, tol, cond));
+        }
+        let xa: Array2<f64> = to_arr(&x, p);
+        let y = fw.transform(xa.clone());
+        oracle_rowwise(ctx, &class, &xa, &y, &sel, false, &|a| fw.transform(a));
+        // the products differ from the model only by the summation order of the matrix kernel:
+        // backward-error scale kappa = p * max|W| * max|x - mean| (same operations on both sides)
+        let wmax = wm.iter().flatten().fold(0.0f64, |a, v| if a < v.abs() { v.abs() } else { a });
+        let mut cmax = 0.0f64;
+        for r in x.iter() {
+            for (v, m) in r.iter().zip(fw.mean().iter()) {
+                let c = (v - m).abs();
+                if cmax < c {
+                    cmax = c;
+                }
+            }
+        }
+        let kappa = (p as f64) * wmax * cmax;
+        let kappa = if kappa > 0.0 { kappa } else { 1.0 };
+        let yk: Mat = to_mat(&y).iter().map(|r| r.iter().map(|v| v / kappa).collect()).collect();
+        format!("ok mean={} kappa={} y={}", list(fw.mean().iter(), |v| hex64c(*v)), hex64c(kappa), show_mat_c(&yk, true))
+    };
+    if n > 0 {
+        em.case_valid(op, &class, body);
+    } else {
+        em.case(op, body);
+    }
+}
+
+// ---------------------------------------------------------------- dataset forms
+
+fn op_ds(em: &mut Em, rng: &mut Rng) {
+    let kind = *rng.pick(&["std", "minmax", "maxabs", "norm", "pca", "zca", "chol"]);
+    let whiten = matches!(kind, "pca" | "zca" | "chol");
+    let p = rng.range(1, 4) as usize;
+    let n = if whiten { p + 2 + rng.below(6) } else { rng.range(1, 8) as usize };
+    let t = rng.range(1, 3) as usize;
+    let recs: Mat = (0..n).map(|_| (0..p).map(|_| rng.range(-16, 16) as f64 / 2.0).collect()).collect();
+    let with_w = rng.coin();
+    let with_fn = rng.chance(2, 3);
+    let with_tn = rng.chance(2, 3);
+    let tg: Vec<Vec<u64>> = (0..n).map(|i| (0..t).map(|c| (1000 + i * t + c) as u64).collect()).collect();
+    let w: Vec<u64> = if with_w { (0..n).map(|i| (i + 1) as u64).collect() } else { vec![] };
+    let fnm: Vec<u64> = if with_fn { (0..p).map(|j| (100 + j) as u64).collect() } else { vec![] };
+    let tn: Vec<u64> = if with_tn { (0..t).map(|c| (200 + c) as u64).collect() } else { vec![] };
+    em.count(&format!("ds:{}", kind));
+    let op = format!(
+        "ds kind={} pout={} t={} tg={} w={} fn={} tn={} fpanic=0",
+        kind,
+        p,
+        t,
+        list2(tg.iter().map(|r| r.iter()), |v| v.to_string()),
+        list(w.iter(), |v| v.to_string()),
+        list(fnm.iter(), |v| v.to_string()),
+        list(tn.iter(), |v| v.to_string())
+    );
+    let class = format!("ds:kind={}", kind);
+    em.case_valid(op, &class, |ctx| {
+        let ra: Array2<f64> = to_arr(&recs, p);
+        let ta = Array2::from_shape_fn((n, t), |(i, c)| tg[i][c] as f64);
+        let mk = || {
+            let mut d = DatasetBase::new(ra.clone(), ta.clone());
+            if with_w {
+                d = d.with_weights(Array1::from_iter(w.iter().map(|v| *v as f32)));
+            }
+            d.with_feature_names(fnm.iter().map(|v| v.to_string()).collect::<Vec<_>>()).with_target_names(tn.iter().map(|v| v.to_string()).collect::<Vec<_>>())
+        };
+        let ds = mk();
+        // dataset form and array form of the same fitted transform
+        let (out, arr) = match kind {
+            "std" | "minmax" | "maxabs" => {
+                let lin = match kind {
+                    "std" => Lin::Std(true, true),
+                    "minmax" => Lin::MinMax(-1.0, 3.0),
+                    _ => Lin::MaxAbs,
+                };
+                let sc = lin.params::<f64>().fit(&ds).unwrap();
+                (sc.transform(mk()), sc.transform(ra.clone()))
+            }
+            "norm" => (NormScaler::l2().transform(mk()), NormScaler::l2().transform(ra.clone())),
+            _ => {
+                let fw = whitener(kind).fit(&ds).unwrap();
+                (fw.transform(mk()), fw.transform(ra.clone()))
+            }
+        };
+        let otg: Vec<Vec<u64>> = out.targets().rows().into_iter().map(|r| r.iter().map(|v| *v as u64).collect()).collect();
+        let ow: Vec<u64> = out.weights().map(|w| w.iter().map(|v| *v as u64).collect()).unwrap_or_default();
+        let ofn: Vec<String> = out.feature_names().to_vec();
+        let otn: Vec<String> = out.target_names().to_vec();
+        ctx.require(otg == tg, "metadata_passthrough", &class, || format!("targets changed: {:?}", otg));
+        ctx.require(ow == w, "metadata_passthrough", &class, || format!("weights changed: {:?} -> {:?}", w, ow));
+        ctx.require(ofn == fnm.iter().map(|v| v.to_string()).collect::<Vec<_>>(), "metadata_passthrough", &class, || format!("feature names changed: {:?}", ofn));
+        ctx.require(otn == tn.iter().map(|v| v.to_string()).collect::<Vec<_>>(), "metadata_passthrough", &class, || format!("target names changed: {:?}", otn));
+        let same = to_mat(out.records()).iter().zip(to_mat(&arr).iter()).all(|(a, b)| same_bits(a, b)) && out.records().dim() == arr.dim();
+        ctx.require(same, "dataset_equals_array_form", &class, || "records of the transformed dataset differ from the array transform".to_string());
+        format!("ok tg={} w={} fn={} tn={}", list2(otg.iter().map(|r| r.iter()), |v| v.to_string()), list(ow.iter(), |v| v.to_string()), ofn.join(","), otn.join(","))
+    });
+}
+
+// ---------------------------------------------------------------- fixed witnesses
+
+fn witnesses(em: &mut Em) {
+    // DESIGN section 8 #12: all-zero row through the norm scaler
+    let x: Mat = vec![vec![0.0, 0.0], vec![3.0, 4.0]];
+    for kind in ["l1", "l2", "max"] {
+        let xx = x.clone();
+        em.case_valid(format!("norm kind={} x={}", kind, show_mat(&xx)), &format!("norm:kind={}", kind), |ctx| {
+            let y = run_norm::<f64>(ctx, "norm", kind, &xx, 2, &[1, 0, 0]);
+            format!("ok y={}", show_mat_c(&y, false))
+        });
+    }
+    // sub-epsilon columns (non-constant, treated as constant by the guards)
+    let tiny: Mat = vec![vec![1e-17], vec![2e-17], vec![3e-17]];
+    for lin in [Lin::Std(true, true), Lin::MinMax(0.0, 1.0), Lin::MaxAbs] {
+        let head = match lin {
+            Lin::Std(wm, ws) => format!("std wm={} ws={}", wm as u8, ws as u8),
+            Lin::MinMax(lo, hi) => format!("minmax lo={} hi={}", hex64(lo), hex64(hi)),
+            Lin::MaxAbs => "maxabs".to_string(),
+        };
+        let approx = matches!(lin, Lin::Std(..));
+        let t2 = tiny.clone();
+        em.case_valid(format!("{} pf=1 fit={} px=1 x={}", head, show_mat(&t2), show_mat(&t2)), lin.name(), |ctx| match run_lin::<f64>(ctx, lin.name(), lin, &t2, 1, &t2, 1, &[2, 0]) {
+            Err(name) => format!("err {}", name),
+            Ok(o) => format!(
+                "ok off={} sc={} y={}",
+                list(o.offsets.iter(), |v| hex64c(*v)),
+                list(o.scales.iter(), |v| if approx { format!("~{}", hex64c(*v)) } else { hex64c(*v) }),
+                show_mat_c(&o.y, approx)
+            ),
+        });
+    }
+}
+
+pub fn run(em: &mut Em, rng: &mut Rng) {
+    witnesses(em);
+    let scale = if em.thorough() { 12 } else { 1 };
+    for i in 0..(420 * scale) {
+        let stream = if i % 3 == 2 { Stream::Generic } else { Stream::Lattice };
+        let f32_too = i % 4 == 0;
+        let (wm, ws) = (i % 2 == 0, (i / 2) % 2 == 0);
+        op_lin(em, rng, Lin::Std(wm, ws), stream, f32_too);
+        let (lo, hi) = gen_range(rng);
+        op_lin(em, rng, Lin::MinMax(lo, hi), stream, f32_too);
+        op_lin(em, rng, Lin::MaxAbs, stream, f32_too);
+        op_norm(em, rng, stream, f32_too);
+    }
+    for i in 0..(300 * scale) {
+        op_whiten(em, rng, if i % 2 == 0 { Stream::Lattice } else { Stream::Generic });
+    }
+    for _ in 0..(150 * scale) {
+        op_ds(em, rng);
+    }
+}
